@@ -9,6 +9,12 @@ mod pathmap;
 mod pump;
 mod tyseed;
 mod e2e;
+mod docs;
+mod total;
+mod bombs;
+
+#[global_allocator]
+static GLOBAL: bombs::Counting = bombs::Counting;
 mod yamlgen;
 
 pub struct Args {
@@ -40,6 +46,9 @@ fn main() {
         ("c07", m) => c07::run(m, &a),
         ("pump", m) => pump::run(m, &a),
         ("e2e", m) => e2e::run(m, &a),
+        ("docs", m) => docs::run(m, &a),
+        ("total", m) => total::run(m, &a),
+        ("bombs", m) => bombs::run(m, &a),
         ("pathmap", m) => pathmap::run(m, &a),
         _ => { eprintln!("unknown area/mode"); 2 }
     };
